@@ -24,6 +24,13 @@ def plan(tier):
     return 600 if tier == "quick" else 10000
 
 
+# second workload (harness/suite.py): the repository's own integration tests are run twice under
+# the determinism shim - as they are, and with every PyCdlib object made always-consistent; each
+# test must master the same images both times
+SUITE_TIERS = ('quick', 'thorough')
+SUITE_TWIN = True
+
+
 def make_schedule(rng, ops, model_paths, n_inserts):
     """Returns list of (position, query-op) sorted by position (insert before ops[position])."""
     sched = []
@@ -173,6 +180,9 @@ def schedules_for(rng, ops, tier):
 
 
 def run_case(i, seed, tier):
+    if i >= plan(tier):
+        from harness import suite
+        return suite.run_twin_slot(PROPERTY, i - plan(tier))
     from harness.props import c01
     counters = {}
     g = Gen(seed * 1000003 + i)
@@ -242,6 +252,9 @@ def run_case(i, seed, tier):
 
 
 def replay(doc):
+    if 'suite_twin' in doc:
+        from harness import suite
+        return suite.replay_twin(doc)
     from harness.props import c01
     cfg, ops, seed = common.doc_cfg_ops(doc)
     scheds = [(n, [tuple(x) for x in s], a) for n, s, a in doc.get('schedules', [['always', [], True]])]
